@@ -55,20 +55,139 @@ def lyotBackward (stop : List K) (Pb : List (List K)) (m1 : List K) (Pf : List (
 def sandwich (Pb : List (List K)) (m : List K) (Pf : List (List K)) : Term K :=
   .comp (.matrix Pb) (.comp (.mulField m) (.matrix Pf))
 
-/-- `MultiScaleCoronagraph` (vortex, FQPM): the coarse Fourier filter plus one sandwich per finer
-level. -/
+/-- an optional pointwise factor: a Lyot stop / apodizer that may be `None` in the code. -/
+def optMul : Option (List K) → Term K
+  | some m => .mulField m
+  | none => .id
+
+/-- `MultiScaleCoronagraph` (vortex, FQPM) without its Lyot stop: the coarse Fourier filter plus one
+sandwich per finer level. -/
 def multiscale (F0 : List (List K)) : List (List (List K) × List K × List (List K)) → Term K
   | [] => .matrix F0
   | (Pb, m, Pf) :: rest => .add (multiscale F0 rest) (sandwich Pb m Pf)
 
-/-- `OpticalSystem`, wavefront-sensor optics, multi-layer atmosphere: composition in order. -/
+/-- `MultiScaleCoronagraph.forward`: `lyot_stop.forward(…)` applied last when there is a stop. -/
+def multiscaleForward (stop : Option (List K)) (F0 : List (List K))
+    (levels : List (List (List K) × List K × List (List K))) : Term K :=
+  .comp (optMul stop) (multiscale F0 levels)
+
+/-- `MultiScaleCoronagraph.backward`: `lyot_stop.backward(wavefront)` applied first. -/
+def multiscaleBackward (stop : Option (List K)) (F0 : List (List K))
+    (levels : List (List (List K) × List K × List (List K))) : Term K :=
+  .comp (multiscale F0 levels) (optMul stop)
+
+/-- `OpticalSystem`, wavefront-sensor optics, multi-layer atmosphere: composition, first part first. -/
 def system : List (Term K) → Term K
   | [] => .id
   | t :: rest => .comp (system rest) t
 
-/-- `FiberNuller` and its subclasses: apodizer, propagator, then fibre injection. -/
-def fibreNuller (rows : List (List K)) (P : List (List K)) (apod : List K) : Term K :=
-  .comp (fibreForward rows) (.comp (.matrix P) (.mulField apod))
+/-- a system whose parts are given as dense matrices (the harness probes the exposed sub-elements). -/
+def systemDense (parts : List (List (List K))) : Term K := system (parts.map dense)
+
+/-- `FiberNuller.forward` and its subclasses: (optional) apodizer, propagator, then fibre injection. -/
+def fibreNuller (rows : List (List K)) (P : List (List K)) (apod : Option (List K)) : Term K :=
+  .comp (fibreForward rows) (.comp (.matrix P) (optMul apod))
+
+/-- `FiberNuller.backward`: fibre backward, propagator backward, (optional) apodizer backward. -/
+def fibreNullerBackward (apod : Option (List K)) (Pb : List (List K)) (B : List (List K)) : Term K :=
+  .comp (optMul apod) (.comp (.matrix Pb) (fibreBackward B))
+
+/-- `StepIndexFiber`: project on the LP modes (with the grid weights), apply the propagation phases,
+expand again. -/
+def fibreModes (Mc : List (List K)) (ph : List K) (Mh : List (List K)) (w : List K) : Term K :=
+  .comp (.matrix Mc) (.comp (.mulField ph) (.comp (.matrix Mh) (.mulField w)))
+
+/-! ### The family table: what the driver op `C06 denote-family` executes
+
+The harness names a family and supplies the element's exposed parameters as arguments; the *term* is
+built here, by `familyTerm`, from the schemas above — not in Python. -/
+
+inductive Family where
+  | pointwise | dense | fibreForward | fibreBackward | projection | lyotCore | lyotForward | lyotBackward
+  | sandwich | multiscaleForward | multiscaleBackward | system | fibreNuller | fibreNullerBackward
+  | fibreModes
+  deriving DecidableEq, Repr
+
+def Family.all : List Family :=
+  [.pointwise, .dense, .fibreForward, .fibreBackward, .projection, .lyotCore, .lyotForward, .lyotBackward,
+   .sandwich, .multiscaleForward, .multiscaleBackward, .system, .fibreNuller, .fibreNullerBackward, .fibreModes]
+
+def Family.name : Family → String
+  | .pointwise => "pointwise" | .dense => "dense" | .fibreForward => "fibreForward"
+  | .fibreBackward => "fibreBackward" | .projection => "projection" | .lyotCore => "lyotCore"
+  | .lyotForward => "lyotForward" | .lyotBackward => "lyotBackward" | .sandwich => "sandwich"
+  | .multiscaleForward => "multiscaleForward" | .multiscaleBackward => "multiscaleBackward"
+  | .system => "system" | .fibreNuller => "fibreNuller" | .fibreNullerBackward => "fibreNullerBackward"
+  | .fibreModes => "fibreModes"
+
+def Family.ofString? (s : String) : Option Family := Family.all.find? (·.name == s)
+
+/-- does the code conjugate the incoming field in this family? (`some true` parity expected) -/
+def Family.conj : Family → Bool
+  | .fibreForward => true
+  | .fibreNuller => true
+  | _ => false
+
+/-- An argument of a family: a vector, a matrix (rows), or an absent optional part. -/
+inductive Arg (K : Type) where
+  | vec (v : List K)
+  | mat (A : List (List K))
+  | none
+
+def optVec : Arg K → Option (Option (List K))
+  | .vec v => some (some v)
+  | .none => some none
+  | .mat _ => none
+
+def levelsOf : List (Arg K) → Option (List (List (List K) × List K × List (List K)))
+  | [] => some []
+  | .mat Pb :: .vec m :: .mat Pf :: rest =>
+    match levelsOf rest with
+    | some l => some ((Pb, m, Pf) :: l)
+    | none => none
+  | _ => none
+
+def matsOf : List (Arg K) → Option (List (List (List K)))
+  | [] => some []
+  | .mat A :: rest =>
+    match matsOf rest with
+    | some l => some (A :: l)
+    | none => none
+  | _ => none
+
+/-- The term of family `f` for the given arguments; `none` when the arguments do not fit. -/
+def familyTerm : Family → List (Arg K) → Option (Term K)
+  | .pointwise, [.vec m] => some (pointwise m)
+  | .dense, [.mat A] => some (dense A)
+  | .fibreForward, [.mat rows] => some (fibreForward rows)
+  | .fibreBackward, [.mat A] => some (fibreBackward A)
+  | .projection, [.mat T, .vec c, .mat Ti] => some (projection T c Ti)
+  | .lyotCore, [.mat Pb, .vec m1, .mat Pf] => some (lyotCore Pb m1 Pf)
+  | .lyotForward, [.vec stop, .mat Pb, .vec m1, .mat Pf] => some (lyotForward stop Pb m1 Pf)
+  | .lyotBackward, [.vec stop, .mat Pb, .vec m1, .mat Pf] => some (lyotBackward stop Pb m1 Pf)
+  | .sandwich, [.mat Pb, .vec m, .mat Pf] => some (sandwich Pb m Pf)
+  | .multiscaleForward, s :: .mat F0 :: rest =>
+    match optVec s, levelsOf rest with
+    | some stop, some levels => some (multiscaleForward stop F0 levels)
+    | _, _ => none
+  | .multiscaleBackward, s :: .mat F0 :: rest =>
+    match optVec s, levelsOf rest with
+    | some stop, some levels => some (multiscaleBackward stop F0 levels)
+    | _, _ => none
+  | .system, parts =>
+    match matsOf parts with
+    | some ms => some (systemDense ms)
+    | none => none
+  | .fibreNuller, [.mat rows, .mat P, s] =>
+    match optVec s with
+    | some apod => some (fibreNuller rows P apod)
+    | none => none
+  | .fibreNullerBackward, [s, .mat Pb, .mat B] =>
+    match optVec s with
+    | some apod => some (fibreNullerBackward apod Pb B)
+    | none => none
+  | .fibreModes, [.mat Mc, .vec ph, .mat Mh, .vec w] => some (fibreModes Mc ph Mh w)
+  | _, _ => none
 
 end Terms
 
@@ -92,8 +211,17 @@ def copyInplace : Prog := ⟨[.copy 1 0, .inplace opMul 1 []], 1⟩
 /-- `PeriodicOpticalElement`: copies, then hands the copy to an apodizer (which copies again). -/
 def copyThenCopyInplace : Prog := ⟨[.copy 1 0, .copy 2 1, .inplace opMul 2 []], 2⟩
 
-/-- `Magnifier`: copy, replace the copy's grid, scale the copy in place. -/
-def magnifier : Prog := ⟨[.copy 1 0, .setAttrConst 1 .grid 1, .inplace opMul 1 []], 1⟩
+/-- `Magnifier`: `wf = wavefront.copy(); wf.electric_field.grid = wf.electric_field.grid.scaled(m)`
+(`scaled` = `copy()` then `scale` in place); then the copy's field is scaled in place. -/
+def magnifier : Prog :=
+  ⟨[.copy 1 0, .copyAttr 1 .grid, .inplaceAttr opMul 1 .grid, .inplace opMul 1 []], 1⟩
+
+/-- **Defect class** (mutant M8, seeded C06-7): a result that points to the caller's grid object, and
+a rescaling of that grid in place — field arrays untouched, the input's grid rewritten. -/
+def scaleSharedGridOld : Prog := ⟨[.newFrom 1 opProp [0] 0, .inplaceAttr opMul 1 .grid], 1⟩
+
+/-- **Defect class** (mutant M7): the Stokes vector of the argument updated in place. -/
+def stokesInplaceOld : Prog := ⟨[.inplaceAttr opMul 0 .stokes, .newFrom 1 opJones [0] 0], 1⟩
 
 /-- propagators, fibres, Jones elements on scalar input: `return Wavefront(Field(f(E)), …)`. -/
 def newFrom : Prog := ⟨[.newFrom 1 opProp [0] 0], 1⟩
@@ -142,7 +270,23 @@ def lyotBwdStop : Prog :=
 
 def zernike : Prog := lyotFwd
 
-/-- `VectorZernikeWavefrontSensorOptics`. -/
+/-- `VectorZernikeWavefrontSensorOptics` on a polarised wavefront (vector or Jones-matrix field): no
+stand-in is built, and the Jones elements (`HWP`, the mask) take the branch
+`wf = wavefront.copy(); wf.electric_field = field_dot(J, wf.electric_field)` — so the argument
+itself is copied once, by `HWP.forward(wavefront)` (found by the object-trace tie in round 4: the
+scalar program below creates 6 wavefronts and never copies the argument, the code on polarised input
+creates 5 and copies it once). -/
+def vectorZernikePol : Prog :=
+  ⟨[.newFrom 1 opProp [0] 0,            -- wf_foc = prop.forward(wavefront)
+    .copy 2 1, .setFieldNew 2 opJones [2],   -- HWP.forward(wf_foc)
+    .copy 3 1, .setFieldNew 3 opJones [3],   -- vZWFS_mask.forward(wf_foc)
+    .setFieldNew 1 opSub [2, 3],        -- wf_foc.electric_field = … - …
+    .newFrom 4 opPropBack [1] 1,        -- pup = prop.backward(wf_foc)
+    .copy 5 0, .setFieldNew 5 opJones [5],   -- HWP.forward(wavefront)
+    .inplace opRsub 4 [5]],             -- pup.electric_field[:] = … - pup.electric_field
+   4⟩
+
+/-- `VectorZernikeWavefrontSensorOptics`, scalar input. -/
 def vectorZernike : Prog :=
   ⟨[.newFrom 1 opProp [0] 0,
     .newFrom 1 opJones [1] 1,           -- wf_foc = Wavefront(wf_foc.electric_field, …, stokes) (scalar case)
@@ -275,15 +419,68 @@ def programs : List (String × Prog) :=
    ("magnifier", magnifier), ("newFrom", newFrom), ("copySetField", copySetField), ("chain", chain),
    ("copyThenChain", copyThenChain), ("lyotFwd", lyotFwd), ("lyotFwdStop", lyotFwdStop),
    ("lyotBwd", lyotBwd), ("lyotBwdStop", lyotBwdStop), ("zernike", zernike),
-   ("vectorZernike", vectorZernike), ("multiscaleFwd", multiscaleFwd),
+   ("vectorZernike", vectorZernike), ("vectorZernikePol", vectorZernikePol), ("multiscaleFwd", multiscaleFwd),
    ("multiscaleFwdStop", multiscaleFwdStop), ("multiscaleBwd", multiscaleBwd),
    ("multiscaleBwdStop", multiscaleBwdStop), ("vvcFwdScalar", vvcFwdScalar), ("vvcFwdPol", vvcFwdPol),
    ("vvcFwdScalarStop", vvcFwdScalarStop), ("vvcFwdPolStop", vvcFwdPolStop),
    ("vvcBwdScalar", vvcBwdScalar), ("vvcBwdPol", vvcBwdPol),
    ("vvcBwdStopScalar", vvcBwdStopScalar), ("vvcBwdStopPol", vvcBwdStopPol)]
 
+/-! ### The programs with a loop, for any number of rounds
+
+multi-scale coronagraphs: one round per scale beyond the first (`len(props) - 1`); vector vortex on
+scalar input: each round also builds a polarised stand-in of the focal wavefront;
+`MultiLayerAtmosphere`: `wf = wavefront.copy()` and one round per element of the chain
+(`wf = el.forward(wf)`: a layer copies and multiplies in place; a propagator between layers creates
+its one new wavefront — the same effect on the store as far as the checker and the trace go).
+The one-round programs above (`multiscaleFwd`, …) stay in `programs`. -/
+
+def msBody (src : Var) : List Instr :=
+  [.newFrom 2 opProp [src] src, .inplace opMul 2 [], .newFrom 3 opPropBack [2] 2, .inplace opAdd 1 [3]]
+def stopPost : List Instr := [.copy 4 1, .inplace opMul 4 []]
+
+def multiscaleFwdL : LoopProg :=
+  ⟨[.saveAttr 0 0 .wavelength, .setAttrConst 0 .wavelength 1, .newFrom 1 opFilter [0] 0], msBody 0,
+   [.setAttrSlot 1 .wavelength 0, .setAttrSlot 0 .wavelength 0], 1⟩
+def multiscaleFwdStopL : LoopProg := { multiscaleFwdL with post := multiscaleFwdL.post ++ stopPost, ret := 4 }
+def multiscaleBwdStopL : LoopProg :=
+  ⟨[.copy 5 0, .inplace opMul 5 [], .saveAttr 0 5 .wavelength, .setAttrConst 5 .wavelength 1, .newFrom 1 opFilter [5] 5],
+   msBody 5, [.setAttrSlot 1 .wavelength 0, .setAttrSlot 5 .wavelength 0], 1⟩
+def vvcBodyPol : List Instr :=
+  [.newFrom 2 opProp [0] 0, .setFieldNew 2 opJones [2], .newFrom 3 opPropBack [2] 2, .inplace opAdd 1 [3]]
+def vvcFwdScalarL : LoopProg :=
+  ⟨[.saveAttr 0 0 .wavelength, .setAttrConst 0 .wavelength 1, .newFrom 6 opJones [0] 0, .newFrom 1 opFilter [6] 6],
+   [.newFrom 2 opProp [0] 0, .newFrom 7 opJones [2] 2, .setFieldNew 7 opJones [7], .newFrom 3 opPropBack [7] 7, .inplace opAdd 1 [3]],
+   [.setAttrSlot 1 .wavelength 0, .setAttrSlot 0 .wavelength 0], 1⟩
+def vvcFwdPolL : LoopProg :=
+  ⟨[.saveAttr 0 0 .wavelength, .setAttrConst 0 .wavelength 1, .bind 6 0, .newFrom 1 opFilter [6] 6], vvcBodyPol,
+   [.setAttrSlot 1 .wavelength 0, .setAttrSlot 0 .wavelength 0], 1⟩
+def vvcFwdScalarStopL : LoopProg := { vvcFwdScalarL with post := vvcFwdScalarL.post ++ stopPost, ret := 4 }
+def vvcFwdPolStopL : LoopProg := { vvcFwdPolL with post := vvcFwdPolL.post ++ stopPost, ret := 4 }
+def vvcBwdScalarL : LoopProg :=
+  ⟨[.saveAttr 0 0 .wavelength, .setAttrConst 0 .wavelength 1, .bind 9 0, .newFrom 0 opJones [0] 0, .newFrom 1 opFilter [0] 0],
+   vvcBodyPol, [.setAttrSlot 1 .wavelength 0, .setAttrSlot 9 .wavelength 0], 1⟩
+def vvcBwdPolL : LoopProg :=
+  ⟨[.saveAttr 0 0 .wavelength, .setAttrConst 0 .wavelength 1, .bind 9 0, .newFrom 1 opFilter [0] 0],
+   vvcBodyPol, [.setAttrSlot 1 .wavelength 0, .setAttrSlot 9 .wavelength 0], 1⟩
+def vvcBwdStopScalarL : LoopProg := { vvcBwdScalarL with pre := [.copy 0 0, .inplace opMul 0 []] ++ vvcBwdScalarL.pre }
+def vvcBwdStopPolL : LoopProg := { vvcBwdPolL with pre := [.copy 0 0, .inplace opMul 0 []] ++ vvcBwdPolL.pre }
+def layersL : LoopProg := ⟨[.copy 1 0], [.copy 2 1, .inplace opMul 2 [], .bind 1 2], [], 1⟩
+
+def loopPrograms : List (String × LoopProg) :=
+  [("multiscaleFwd", multiscaleFwdL), ("multiscaleFwdStop", multiscaleFwdStopL), ("multiscaleBwd", multiscaleFwdL),
+   ("multiscaleBwdStop", multiscaleBwdStopL), ("vvcFwdScalar", vvcFwdScalarL), ("vvcFwdPol", vvcFwdPolL),
+   ("vvcFwdScalarStop", vvcFwdScalarStopL), ("vvcFwdPolStop", vvcFwdPolStopL), ("vvcBwdScalar", vvcBwdScalarL),
+   ("vvcBwdPol", vvcBwdPolL), ("vvcBwdStopScalar", vvcBwdStopScalarL), ("vvcBwdStopPol", vvcBwdStopPolL),
+   ("copyThenChain", layersL)]
+
+def loopProgramByName (n : String) : Option LoopProg := (loopPrograms.find? (·.1 == n)).map (·.2)
+
+
 def programByName (n : String) : Option Prog :=
   if n == "vvcBwdScalarOld" then some vvcBwdScalarOld
+  else if n == "scaleSharedGridOld" then some scaleSharedGridOld
+  else if n == "stokesInplaceOld" then some stokesInplaceOld
   else (programs.find? (·.1 == n)).map (·.2)
 
 
@@ -315,7 +512,8 @@ def iAgnosticSpec : IExpr := .op2 opMake (.op2 opMake (.atom (.param 0)) (.atom 
 def iAgnostic : IProg :=
   { keyAtoms := fun _ => [.param 0, .grid, .wavelength], spec := fun _ => iAgnosticSpec,
     body := [.memoRead 1 0 iAgnosticSpec, .memoFill 0 iAgnosticSpec],
-    ret := .op2 opMul .field (.loc 1) }
+    ret := .op2 opMul .field (.loc 1),
+    cap := fun _ => 11 }
 
 /-- `DeformableMirror.surface` (also segmented and tip-tilt mirrors): `_surface` is the linear
 combination for `_actuators_for_cached_surface`; recomputed when the actuators differ. -/
@@ -351,7 +549,8 @@ def iPropagator : IProg :=
     body := [.memoRead 1 0 iAgnosticSpec, .memoFill 0 iAgnosticSpec,
              .memoRead 2 1 (.op1 opMatrices (.atom (.param 1))), .memoFill 1 (.op1 opMatrices (.atom (.param 1))),
              .scratchWrite 0 (.op1 opPad .field), .scratchRead 3 0],
-    ret := .op2 opFT (.loc 3) (.op2 opMul (.loc 1) (.loc 2)) }
+    ret := .op2 opFT (.loc 3) (.op2 opMul (.loc 1) (.loc 2)),
+    cap := fun c => if c = 0 then 11 else 1 }
 
 /-- `ModulatedPyramidWavefrontSensorOptics`: sets the actuators of the tip-tilt mirror it owns to
 each modulation point in turn; what stays behind is the last point, a function of its parameters. -/
